@@ -20,6 +20,8 @@ T={
  'C15-a':('C15','forward_device_data: retained list truncated after the slot count was already reduced','new subscription matching R retained topics with S free delivery slots and S/2 < R <= S (e.g. window 4, 3 topics): only S-R of them are replayed, the rest never'),
  'C16-a':('C16','handle_device_payload: will removal moved to the common disconnect exit when no reason code is set','client with a will whose connection the router closes for a protocol error without an MQTT 5 reason code (unsolicited ack, bad PUBREL, rejected subscribe, non-UTF-8 topic): the will is deleted and never published'),
  'C17-a':('C17','SharedGroup::remove_client removes only the first entry of the client id','a member that joined the group twice (plain re-subscribe) leaves or disconnects while another member remains: a ghost entry stays, the turn lands on it and delivery to the group stops for good'),
+ 'C02-b':('C02','rumqttc v5 handle_incoming_connack: outgoing_pub resized to the negotiated receive maximum','MQTT 5 client, persistent session; a QoS1/2 publish with packet id p is unacknowledged when the connection fails; the next CONNACK has session present and a receive maximum below p: the replayed publish fails the bounds check, is dropped and the connection closes'),
+ 'C18-a':('C18','MqttState::clean() no longer resets await_pingresp (reset moved to the error return of outgoing_ping)','a PINGREQ is outstanding when the connection is lost for a reason other than the keep-alive check; after the reconnect the first keep-alive tick reports AwaitPingResp although that broker answers every ping'),
  'C19-a':('C19','handle_auth: unknown user compared against the empty string','listener with a static credentials table (no callback), CONNECT with a user name not in the table and an empty/absent password: admitted'),
  'C20-a':('C20','forward_device_data: properties.insert(default) when adding the subscription identifier','MQTT 5 subscriber that subscribed with a subscription identifier receives a publish that carries properties of its own: all publisher properties are dropped'),
 }
